@@ -452,6 +452,18 @@ func run(c *harness.Ctx, i int) {
 		if server == "chunk" && method == "PUT-bad" && !verifyWrite && resp.status == 200 {
 			polluted = true
 		}
+		// ... the same for a plain PUT whose (valid) body belongs to another ID than the path names, as under the
+		// all-zero ID (found by the thorough tier: the oracle then took the stored upload for a wrong object served)
+		if server == "chunk" && m == "PUT" && !verifyWrite && resp.status/100 == 2 {
+			data := body
+			var derr error
+			if !uncompressed {
+				data, derr = zdec.DecodeAll(body, nil)
+			}
+			if id, ok := idFromTarget(pc.target, ext); derr != nil || !ok || dsu.Sum(data) != id {
+				polluted = true
+			}
+		}
 		// (4) a 200 GET body is exactly the requested object
 		if m == "GET" && resp.status == 200 && !(server == "chunk" && polluted) {
 			if server == "chunk" {
